@@ -299,7 +299,24 @@ def _run(ctx):
                     and len(node.args) >= 2 and isinstance(node.args[1], ast.Constant):
                 written.add(node.args[1].value)
     nread = 0
-    container_methods = set(dir(list)) | set(dir(dict)) | set(dir(str)) | set(dir(tuple))
+    container_methods = set(dir(list)) | set(dir(dict)) | set(dir(str)) | set(dir(tuple)) | {"_replace", "_asdict", "_fields", "_make"}
+    # fields of namedtuples defined in the package are "written" by the constructor
+    for mod in ctx.src.modules.values():
+        for node in ast.walk(mod.tree):
+            if isinstance(node, ast.Call) and ast.unparse(node.func).split(".")[-1] == "namedtuple" and len(node.args) >= 2:
+                fl = node.args[1]
+                if isinstance(fl, ast.Constant) and isinstance(fl.value, str):
+                    written.update(fl.value.replace(",", " ").split())
+                elif isinstance(fl, (ast.List, ast.Tuple)):
+                    written.update(e.value for e in fl.elts if isinstance(e, ast.Constant) and isinstance(e.value, str))
+            if isinstance(node, ast.ClassDef):
+                for st_ in node.body:
+                    if isinstance(st_, ast.AnnAssign) and isinstance(st_.target, ast.Name):
+                        written.add(st_.target.id)           # NamedTuple / dataclass style fields
+                    if isinstance(st_, ast.Assign) and any(isinstance(t_, ast.Name) and t_.id == "__slots__" for t_ in st_.targets):
+                        for e in ast.walk(st_.value):
+                            if isinstance(e, ast.Constant) and isinstance(e.value, str):
+                                written.add(e.value)
     for name in ("convert_by_weight", "convert_by_volume", "convert_by_layer", "convert_by_absmass", "convert_mixture", "convert_compound"):
         f = ctx.src.func(_action_qual(action(I, w, name)))
         for node in ast.walk(f.node):
